@@ -12,15 +12,58 @@ FROM = 'p0.QDomElement::attribute("from")'
 OWN = 'this.QXmppClientExtension::client().QXmppClient::configuration().QXmppConfiguration::jidBare()'
 
 
+def _compare_call(fn, nid):
+    """(a, b) if nid is QString::compare(a, b[, Qt::CaseSensitive]) / a.compare(b[, Qt::CaseSensitive]): the three-way form of the exact comparison"""
+    n = fn.nodes[fn.skip(nid)]
+    if n['k'] != 'call' or fn.cname(n) != 'QString::compare':
+        return None
+    ops = ([n['obj']] if n.get('obj') is not None else []) + [a for a in n.get('args', []) if fn.nodes[a]['k'] != 'defarg']
+    if len(ops) == 3:
+        if fn.const_value(ops[2]) != ('enum', 'Qt::CaseSensitive'):
+            return None            # case-insensitive (or computed) sensitivity is not the exact comparison
+        ops = ops[:2]
+    return tuple(ops) if len(ops) == 2 else None
+
+
+def _str_cmp(fn, nid):
+    """(op, a, b) for an exact string (in)equality in any of its spellings: a == b, a != b, compare(a, b) ==/!= 0, !compare(a, b)"""
+    bo = fn.binop(nid)
+    if bo and bo[0] in ('==', '!='):
+        for x, y in ((bo[1], bo[2]), (bo[2], bo[1])):
+            if fn.const_value(y) == ('int', 0):
+                c = _compare_call(fn, x)
+                if c:
+                    return (bo[0],) + c
+        return bo
+    n = fn.nodes[nid]
+    if n['k'] == 'un' and n.get('op') == '!':
+        c = _compare_call(fn, n['e'])
+        if c:
+            return ('==',) + c
+    return None
+
+
 def _cmp_kind(fn, nid):
     """('==' | '!=') if the node is the exact, case-sensitive QString comparison of the outer from with the own bare JID"""
-    bo = fn.binop(nid)
-    if not bo or bo[0] not in ('==', '!='):
+    bo = _str_cmp(fn, nid)
+    if not bo:
         return None
     a, b = fn.fmt(bo[1]), fn.fmt(bo[2])
     if {a, b} == {FROM, OWN}:
         return bo[0]
     return None
+
+
+def _is_sink(fn, n, sink_names):
+    """a call that presents a message to the application: one of the named signals / injectMessage, or a call through a pointer
+    (member pointer chosen from a table of signals) that is handed a QXmppMessage"""
+    if n['k'] != 'call':
+        return False
+    if fn.cname(n) in sink_names:
+        return True
+    if 'fn' in n and not fn.cname(n) and not n.get('op'):
+        return any((fn.nodes[fn.skip(a)].get('tc') or '') == 'record:QXmppMessage' for a in n.get('args', []))
+    return False
 
 
 def _fce(fn, nid, name, ns):
@@ -39,25 +82,117 @@ def _fce(fn, nid, name, ns):
     return n['args'][0]
 
 
-def _from_carbon(fn, nid):
+LEVELS = [('message', 'ns_client'), ('forwarded', 'ns_forwarding'), (None, 'ns_carbons')]
+
+
+def _from_carbon(fn, nid, level=0, ctx=()):
     """every value reaching nid is firstChildElement(firstChildElement(firstChildElement(p0, sent|received, ns_carbons),
-    "forwarded", ns_forwarding), "message", ns_client)"""
+    "forwarded", ns_forwarding), "message", ns_client) of the handler's first parameter; ctx = ((caller fn, call node), ...) when nid
+    lives in an unwrapping helper: a helper parameter continues with the caller's argument"""
     for m in fn.resolve_all(nid):
-        f1 = _fce(fn, m, 'message', 'ns_client')
-        if f1 is None:
+        node = fn.nodes[fn.skip(m)]
+        if node['k'] == 'var' and node.get('vk') == 'param':
+            if ctx:
+                cfn, call = ctx[-1]
+                args = call.get('args', [])
+                if node.get('pidx') is None or node['pidx'] >= len(args) or not _from_carbon(cfn, args[node['pidx']], level, ctx[:-1]):
+                    return False
+                continue
+            if level == len(LEVELS) and node.get('pidx') == 0:
+                continue
             return False
-        for fw in fn.resolve_all(f1):
-            f2 = _fce(fn, fw, 'forwarded', 'ns_forwarding')
-            if f2 is None:
-                return False
-            for c in fn.resolve_all(f2):
-                f3 = _fce(fn, c, None, 'ns_carbons')
-                if f3 is None:
-                    return False
-                root = fn.nodes[fn.skip(f3)]
-                if not (root['k'] == 'var' and root.get('vk') == 'param' and root.get('pidx') == 0):
-                    return False
+        if node['k'] == 'construct' and not node.get('args') and node.get('cls') == 'QDomElement':
+            continue                    # the null element: nothing can be unwrapped from it
+        if level == len(LEVELS):
+            return False
+        x = _fce(fn, m, *LEVELS[level])
+        if x is None or not _from_carbon(fn, x, level + 1, ctx):
+            return False
     return True
+
+
+def _strip(fn, nid):
+    """look through std::move, *optional / optional.value(), and the copy into a std::optional / QXmppMessage temporary"""
+    while True:
+        nid = fn.skip(nid)
+        n = fn.nodes[nid]
+        if n['k'] == 'call' and n.get('op') == '*' and n.get('opargs'):
+            nid = n['opargs'][0]
+        elif n['k'] == 'call' and fn.cname(n).split('<')[0] in ('std::optional::value', 'std::optional') and n.get('obj') is not None:
+            nid = n['obj']
+        elif n['k'] == 'un' and n.get('op') == '*':
+            nid = n['e']
+        elif n['k'] == 'construct' and len(n.get('args', [])) == 1 and (n.get('cls', '').startswith('std::optional') or n.get('cls') == 'QXmppMessage'):
+            nid = n['args'][0]
+        else:
+            return nid
+
+
+def _presented(prog, fn, expr, use, ctx=(), depth=0):
+    """None if the value of expr at `use` is a message parsed from carbon/forwarded/message of the outer stanza and flagged as
+    forwarded, else the reason.  Follows a local that holds the result of an unwrapping helper into that helper's returns."""
+    if depth > 3:
+        return 'helper nesting too deep'
+    e = _strip(fn, expr)
+    node = fn.nodes[e]
+    if node['k'] == 'var' and node.get('vk') == 'local':
+        decl = node['decl']
+        parses = [i for i, c in fn.calls('QXmppMessage::parse')
+                  if c.get('obj') is not None and fn.nodes[fn.skip(c['obj'])].get('decl') == decl]
+        if parses:
+            flags = [i for i, c in fn.calls('QXmppMessage::setCarbonForwarded')
+                     if c.get('obj') is not None and fn.nodes[fn.skip(c['obj'])].get('decl') == decl
+                     and fn.const_value(c['args'][0]) == ('bool', True)]
+            if not any(fn.node_dominates(p, use) and _from_carbon(fn, fn.nodes[p]['args'][0], 0, ctx) for p in parses):
+                return 'presented message is not parsed from carbon/forwarded/message of the outer stanza'
+            if not any(fn.node_dominates(fl, use) for fl in flags):
+                return 'setCarbonForwarded(true) does not dominate the sink'
+            return None
+        d = fn.single_def(decl)
+        if d is not None:
+            return _presented(prog, fn, d, use, ctx, depth)
+        return 'presented message is not parsed from carbon/forwarded/message of the outer stanza'
+    if node['k'] == 'call' and not node.get('op'):
+        gs = prog.callee_fns(fn, node)
+        if len(gs) == 1 and gs[0].entry is not None:
+            g = gs[0]
+            seen = 0
+            for i, r in g.returns():
+                if 'e' not in r:
+                    continue
+                v = g.nodes[_strip(g, r['e'])]
+                if v['k'] == 'construct' and not v.get('args'):
+                    continue                    # the empty optional: nothing is presented on this path
+                if v['k'] == 'null':
+                    continue
+                seen += 1
+                why = _presented(prog, g, r['e'], i, ctx + ((fn, node),), depth + 1)
+                if why:
+                    return why
+            if seen:
+                return None
+    return 'sink argument is not a message parsed from the wrapper: %s' % fn.fmt(expr)[:120]
+
+
+def _inner_sites(prog, fn, depth=0, seen=None):
+    """call sites in fn that look into the wrapper: lookup of <forwarded/>/<message/>, the inner parse, or a helper that does either"""
+    out = []
+    seen = seen if seen is not None else {fn.id}
+    for i, n in fn.calls():
+        cn = fn.cname(n)
+        if cn == 'QXmpp::Private::firstChildElement' and len(n['args']) >= 2 and fn.strval(n['args'][1]) in ('forwarded', 'message'):
+            out.append((i, 'lookup of <%s/>' % fn.strval(n['args'][1])))
+        elif cn == 'QXmppMessage::parse':
+            out.append((i, 'inner QXmppMessage::parse'))
+        elif depth < 2 and not n.get('op') and fn.file.endswith('.cpp'):
+            for g in prog.callee_fns(fn, n):
+                if g.id in seen or g.entry is None or g.file != fn.file:
+                    continue
+                seen.add(g.id)
+                sub = _inner_sites(prog, g, depth + 1, seen)
+                if sub:
+                    out.append((i, 'helper %s (%s)' % (g.outer_name(), ', '.join(sorted({w for _, w in sub})))))
+    return out
 
 
 def evaluator(fn, equal):
@@ -77,23 +212,24 @@ def run(prog, run):
                        'one parsed from forwarded/message and is flagged as forwarded on every path.')
     run.assume('QString operator==/!= is exact and case-sensitive (Qt contract); jidBare() is the configured account address')
     r1 = run.rule('C11.R1', 'no sink (messageSent/messageReceived/injectMessage) is reachable unless the outer stanza\'s from equals '
-                            'configuration().jidBare() by exact QString comparison', floor=3)
-    r2 = run.rule('C11.R2', 'the sender check precedes any look into the wrapper (forwarded lookup, inner parse); the reject path returns false', floor=4)
+                            'configuration().jidBare() by exact QString comparison', floor=2)
+    r2 = run.rule('C11.R2', 'the sender check precedes any look into the wrapper (forwarded lookup, inner parse, directly or in an unwrapping helper); the reject path returns false', floor=3)
     r3 = run.rule('C11.R3', 'what is presented is the message parsed from carbon/forwarded/message, flagged setCarbonForwarded(true) on every path', floor=2)
     r4 = run.rule('C11.R4', 'both manager generations use the same guard operands', floor=1)
     guards = {}
     for qn, sink_names in MANAGERS.items():
         fn = prog.fn(qn)
-        sinks = [i for i, n in fn.calls() if fn.cname(n) in sink_names]
-        if len(sinks) < len(sink_names):
+        sinks = [i for i, n in fn.calls() if _is_sink(fn, n, sink_names)]
+        direct = {fn.cname(fn.nodes[i]) for i in sinks}
+        if not sinks or (len(direct & set(sink_names)) < len(sink_names) and None not in direct and '' not in direct):
             raise AnalysisBroken('C11: sinks %s not found in %s' % (sink_names, qn))
         cmps = [i for i in range(len(fn.nodes)) if _cmp_kind(fn, i)]
-        guards[qn] = sorted({' ~ '.join(sorted(fn.fmt(x) for x in fn.binop(i)[1:])) for i in cmps})   # operand set, whatever the order/operator
+        guards[qn] = sorted({' ~ '.join(sorted(fn.fmt(x) for x in _str_cmp(fn, i)[1:])) for i in cmps})   # operand set, whatever the order/operator
         # ---- R1: unreachable when from != own
         res = cfgx.sink_reachability(fn, evaluator(fn, False), sinks)
         for s in sinks:
             run.instance(r1)
-            name = fn.cname(fn.nodes[s]).split('::')[-1]
+            name = (fn.cname(fn.nodes[s]) or 'signal through pointer').split('::')[-1]
             if res[s] is not None:
                 run.violation(r1, '%s#%s' % (qn, name), fn.loc(s),
                               '%s reachable although the outer from differs from the own bare JID' % name,
@@ -105,14 +241,8 @@ def run(prog, run):
         if not all(res_eq[s] is not None for s in sinks):
             raise AnalysisBroken('C11: sinks of %s unreachable even for the own JID — model does not fit the code' % qn)
         # ---- R2: wrapper untouched before the check
-        inner = []
-        for i, n in fn.calls():
-            cn = fn.cname(n)
-            if cn == 'QXmpp::Private::firstChildElement' and len(n['args']) >= 2 and fn.strval(n['args'][1]) in ('forwarded', 'message'):
-                inner.append((i, 'lookup of <%s/>' % fn.strval(n['args'][1])))
-            elif cn == 'QXmppMessage::parse':
-                inner.append((i, 'inner QXmppMessage::parse'))
-        if len(inner) < 2:
+        inner = _inner_sites(prog, fn)
+        if not any('parse' in w for _, w in inner) or not any('<forwarded/>' in w for _, w in inner):
             raise AnalysisBroken('C11.R2: forwarded lookup / inner parse not found in %s' % qn)
         res = cfgx.sink_reachability(fn, evaluator(fn, False), [i for i, _ in inner])
         for i, what in inner:
@@ -139,25 +269,9 @@ def run(prog, run):
         for s in sinks:
             run.instance(r3)
             n = fn.nodes[s]
-            arg = fn.nodes[fn.skip(n['args'][0])]
-            if arg['k'] != 'var':
-                run.violation(r3, '%s#presented' % qn, fn.loc(s), 'sink argument is not the parsed local message: %s' % fn.fmt(n['args'][0]))
-                continue
-            decl = arg['decl']
-            parses = [i for i, c in fn.calls('QXmppMessage::parse')
-                      if c.get('obj') is not None and fn.nodes[fn.skip(c['obj'])].get('decl') == decl]
-            flags = [i for i, c in fn.calls('QXmppMessage::setCarbonForwarded')
-                     if c.get('obj') is not None and fn.nodes[fn.skip(c['obj'])].get('decl') == decl
-                     and fn.const_value(c['args'][0]) == ('bool', True)]
-            ok_parse = False
-            for p in parses:
-                if fn.node_dominates(p, s) and _from_carbon(fn, fn.nodes[p]['args'][0]):
-                    ok_parse = True
-            ok_flag = any(fn.node_dominates(fl, s) for fl in flags)
-            if not ok_parse:
-                run.violation(r3, '%s#provenance' % qn, fn.loc(s), 'presented message is not parsed from carbon/forwarded/message of the outer stanza')
-            elif not ok_flag:
-                run.violation(r3, '%s#forwarded-flag' % qn, fn.loc(s), 'setCarbonForwarded(true) does not dominate the sink')
+            why = _presented(prog, fn, n['args'][0], s)
+            if why:
+                run.violation(r3, '%s#%s' % (qn, 'forwarded-flag' if 'setCarbonForwarded' in why else 'provenance'), fn.loc(s), why)
             else:
                 run.ok(r3, fn.loc(s), 'parsed from carbons/forwarded/message and flagged as forwarded')
     run.instance(r4)
